@@ -66,7 +66,8 @@ def value_candidates(lit):
 def build_grid(rows_spec, version='3.0', churn=0):
     """rows_spec: list of dict tag -> model value | 'ABSENT' | 'NONE' | 'MARKER'; ids id0..
     churn: the grid has a history - a row that was appended and deleted again (1), a row that was replaced (2), a
-    look-up by id before the rows were complete (3), a batch extend refused half-way (4) - none of which is visible in its rows"""
+    look-up by id before the rows were complete (3), a batch extend refused half-way (4) - none of which is visible in its rows;
+    (5) the refused batch again, its accepted prefix left in place"""
     import hszinc
     g = hszinc.Grid(version=version)
     g.metadata['gm'] = 'meta'
@@ -110,6 +111,16 @@ def build_grid(rows_spec, version='3.0', churn=0):
             pass
         while len(g) > n:
             del g[len(g) - 1]
+    elif churn == 5:
+        # the same refused batch, but whatever part of it the grid kept stays: those rows are rows like any others (they
+        # carry the ids that dangling references of the small scope point to, so a->b must now find them - or not, if the
+        # grid dropped them; the reference evaluator works on the rows the grid actually holds)
+        g.get('id0')
+        ghost = dict((t, 5.0) for t in tags)
+        try:
+            g.extend([dict(ghost, id='nope'), dict(ghost, id='1'), 42])
+        except Exception:  # noqa - how a bad batch is refused is C14's subject
+            pass
     return g
 
 
@@ -394,7 +405,7 @@ def strategies(excl):
         return {'ast': a, 'choices': draw(st.lists(st.integers(0, 11), max_size=30)), 'rows': rows,
                 'limit': draw(st.sampled_from([0, 0, 0, 1, 2, nrows])),
                 'version': draw(st.sampled_from(['3.0', '3.0', '2.0', '2.5', '3.0.0', '1.0', '4.0', '2'])),
-                'churn': draw(st.sampled_from([0, 0, 1, 2, 3, 4])), 'siblings': draw(st.booleans())}
+                'churn': draw(st.sampled_from([0, 0, 1, 2, 3, 4, 5, 5])), 'siblings': draw(st.booleans())}
     return cases()
 
 
